@@ -270,7 +270,8 @@ PROPERTY = {
     'lean_module': 'TracingModel.Props.C17',
     'namespace': 'C17',
     'units': ['InstrumentFacts'],
-    'required_theorems': ['C17.code_facts', 'C17.attr_parse_facts', 'C17.one_span', 'C17.fields_spec', 'C17.body_inside_span', 'C17.ret_err_events'],
+    'required_theorems': ['C17.code_facts', 'C17.attr_parse_facts', 'C17.one_span', 'C17.fields_spec', 'C17.body_inside_span', 'C17.ret_err_events',
+                          'C17.closed_once_at_the_end', 'C17.entered_once_per_poll', 'C17.at_most_one_tail_event'],
     'streams': [_s],
     'rule': 'one case = one generated pair of functions with the same signature and body, one carrying #[instrument(...)]: sync or async, 0-4 parameters of 12 kinds, 8 return shapes, attribute arguments name / level / target / '
             'parent = None / skip / (rarely) skip_all / fields (expressions over arguments, Debug sigil, dotted names, a name equal to a parameter) / ret and err with Display|Debug and level; each is run under a recording collector, '
